@@ -13,6 +13,7 @@
   error, see `parent_pointer_to_map_is_error`.
 -/
 import Bexpr.Eval.Impl
+import Proofs.Keys
 import Props.C03
 
 namespace Bexpr.Props.C05
@@ -84,12 +85,33 @@ theorem single_part_never_absent (cfg : Config) (p : List GoString) (h : p.lengt
   simp [evaluateNotPresent, h]
 
 /-- failing for any reason other than ErrNotFound is an error: index out of range, a step into
-    a scalar, an ignored field, a key that cannot be coerced … -/
+    a scalar, an ignored field, a key that cannot be coerced …  (The former exclusion "the failure
+    is not `unmodelled`" is gone: `Get` never answers `unmodelled`, `Proofs.Keys.get_ne_unmodelled`.
+    What remains excluded is the library's own panic on a key type like `*[1][]int`,
+    `Proofs.Keys.getStep_panic`, which is not an error return.) -/
 theorem other_failure_is_error (path p : List GoString) (e : GetErr)
     (hp : resolveLocals o.locals.reverse path = .ok (.inr p)) (hg : get o.cfg p d = .error e)
-    (hne : e ≠ .notFound) (hnu : e ≠ .unmodelled) : getValue o d path = .error := by
+    (hne : e ≠ .notFound) (hnp : e ≠ .panic) : getValue o d path = .error := by
+  have hnu : e ≠ .unmodelled := fun h => Proofs.Keys.get_ne_unmodelled _ _ _ (h ▸ hg)
   unfold getValue
   cases e <;> simp_all
+
+/-- `getValue` never answers `unmodelled`: every map key type is inside the model -/
+theorem getValue_ne_unmodelled (path : List GoString) : ∀ g, getValue o d path = g →
+    (match g with | .unmodelled => False | _ => True) := by
+  intro g hg
+  unfold getValue at hg
+  split at hg
+  · cases hg; trivial
+  · cases hg; trivial
+  · split at hg
+    · cases hg; trivial
+    · rename_i h; exact absurd h (Proofs.Keys.get_ne_unmodelled _ _ _)
+    · cases hg; trivial
+    · split at hg
+      · cases hg; trivial
+      · split at hg <;> (cases hg; trivial)
+    · cases hg; trivial
 
 /-- ErrNotFound whose parent is not a map (an absent struct field, an absent intermediate key
     below a struct or list …) is an error when no unknown value is configured -/
@@ -183,6 +205,7 @@ end Bexpr.Props.C05
 #print axioms Bexpr.Props.C05.getValue_absent_iff
 #print axioms Bexpr.Props.C05.evaluateNotPresent_iff
 #print axioms Bexpr.Props.C05.other_failure_is_error
+#print axioms Bexpr.Props.C05.getValue_ne_unmodelled
 #print axioms Bexpr.Props.C05.notFound_nonmap_parent_is_error
 #print axioms Bexpr.Props.C05.unknown_subst
 #print axioms Bexpr.Props.C05.unknown_neutral_getValue
